@@ -26,7 +26,9 @@ Kinds == <<
   "while a: b\n", "if a: b\nelif c: d\nelse: e\n", "k = lambda: (yield)\n", "print(f!(x, y), ![ls])\n", "if c:\n    with! m:\n        raw\n    z = 1\n", \* 36-40
   "    \n", "x = 1  # trailing\n", "\f\n", "def e(): ...\n\n\n", "z = $(echo $(echo @(1)))\n",                                    \* 41-45
   "q = p'/srv' pf'/{u}'\n", "s2 = 'plain' \"text\"\n", "$(reload!)\n", "![reset!]\n", "f!()\n",                               \* 46-50
-  "m = f!(a)(b)\n", "$(echo! a) or f!(x)\n", "k = pf'{u}' 'x'\n", "print('a', p'b')\n", "h = range?.index?\n"                  \* 51-55
+  "m = f!(a)(b)\n", "$(echo! a) or f!(x)\n", "k = pf'{u}' 'x'\n", "print('a', p'b')\n", "h = range?.index?\n",                 \* 51-55
+  "match x:\n    case 'lit' | \"s\":\n        pass\n    case {'k': 1}:\n        pass\n", "d = {'k': 'v'}['k']\n", "open(p'/e' pf'{n}.c', 'r')\n",  \* 56-58
+  "x = f'{a}' 'b' \"c\"\n", "import a.b as c, d\n"                                                                        \* 59-60
 >>
 VARIABLE seq
 Init == seq = <<>>
